@@ -192,6 +192,12 @@ var unqueuedCmdTable = map[string]bool{
 }
 
 func (ctx *cmdContext) info(cs *clientState) string {
+	if ctx.cs.watchesOtherDb(ctx.dsc.ds) {
+		// the dirty flag needs a second database lock
+		multiDataStoreLock.Lock()
+		defer multiDataStoreLock.Unlock()
+	}
+
 	// take complete ownership of the data store
 	ctx.dsc.acquireExclusive()
 	defer ctx.dsc.releaseExclusive()
@@ -215,7 +221,7 @@ func (ctx *cmdContext) infoUnlocked(cs *clientState) string {
 	if cs.client.IsCloseRequested() {
 		flags.WriteRune('c')
 	}
-	if cs == ctx.cs && isAbortedExecUnlocked(cs) {
+	if cs == ctx.cs && isAbortedExecUnlocked(cs, ctx.dsc.ds) {
 		// only for the calling connection: the watch table of another connection
 		// belongs to its goroutine, and its keys may live in a database that is
 		// not locked here
